@@ -31,7 +31,7 @@ BOUNDS = {
 OUTSIDE = ('from_full, canonical_form_finite/infinite, from_Bflat with chi>1, from_singlets, from_product_mps_covering, '
            'from_random_unitary_evolution, from_desired_bond_dimension (chains of factorisations / LAPACK / ARPACK); norm_test; '
            'entropies of non-diagonal (mixer) S; whether the stored S are the true Schmidt values (needs canonical form); '
-           'entanglement_entropy_segment: that LAPACK eigvalsh returns the eigenvalues of the matrix it is given (contract stub), entanglement_entropy_segment2, mutinf_two_site')
+           'entanglement_entropy_segment: that LAPACK eigvalsh returns the eigenvalues of the matrix it is given (contract stub), entanglement_entropy_segment2, mutinf_two_site with n != 1')
 STUBS = ['BLAS contract stub', 'numpy facade for tenpy.networks.mps, tenpy.tools.math (dtype widening, log -> monotone UF)',
          'Array.conj hook', 'QTYPE=object (symbolic target charge in gauge_total_charge cases)',
          'np.linalg.eigvalsh contract stub (entropy.segment cases only: fresh real eigenvalues, ascending, same matrix -> same eigenvalues)']
@@ -349,16 +349,13 @@ def entropy_case(ctx, **p):
             for s in sm.S[L]:
                 tot = tot - _log(ctx, s * s) * (s * s)
             ctx.prove_eq(ent, np.array([tot]), 'entanglement_entropy(bonds=L) uses the right-most S')
-    elif mode == 'segment':
+    elif mode in ('segment', 'mutinf'):
         # entanglement_entropy_segment = entropy(eigvalsh(reduced density matrix), n): ONE LAPACK call per first site.  The matrix
         # handed to eigvalsh is compared with the harness's own partial trace of get_theta (get_theta is decided by the theta cases);
         # the returned number with the documented formula on the eigenvalues the (stubbed / real) eigvalsh returned.
+        # mutinf_two_site = S(i) + S(j) - S(ij): L single-site calls, then one call per pair (i, j), window state = get_theta(i, j-i+1).
         import tenpy.networks.mps as M
         n = p['n']
-        seg = list(p['segment'])
-        width = seg[-1] + 1
-        firsts = list(range(0, L - seg[-1])) if sm.bc != 'infinite' else list(range(L))
-        i0 = firsts[ctx.choice('first_site', len(firsts))]
         calls = []
         orig = M.npc.eigvalsh
 
@@ -369,40 +366,66 @@ def entropy_case(ctx, **p):
             calls.append((a.split_legs().to_ndarray(), kept))  # split_legs undoes the charge sorting of the combined legs
             return w
 
-        M.npc.eigvalsh = rec
-        restore = None
-        if ctx.symbolic:  # eigvalsh contract stub (fresh ascending real eigenvalues), installed after the sites / tensors are built
-            from symx import lapack, stubs
-            restore = stubs.facade_for(M.npc, widen=True, linalg_overrides={'eigvalsh': lapack.make_eigvalsh(np.linalg.eigvalsh)})
-        try:
-            ent = psi.entanglement_entropy_segment(segment=seg, first_site=[i0], n=n)
-        finally:
-            M.npc.eigvalsh = orig
-            if restore is not None:
-                restore()
-        ctx.prove(len(calls) == 1 and len(ent) == 1, 'entanglement_entropy_segment: one reduced density matrix per first site')
-        rho, w = calls[0]
-        th = psi.get_theta(i0, n=width).to_ndarray()  # vL, p0..p_{width-1}, vR
-        keep = [1 + j for j in seg]
-        drop = [0] + [1 + j for j in range(width) if j not in seg] + [width + 1]
-        own = np.tensordot(th, th.conj(), axes=(drop, drop))
-        ctx.prove_eq(rho, own, 'matrix diagonalised by entanglement_entropy_segment == own partial trace of theta theta^dagger')
-        if n == 1:
-            tot = 0
-            for x in w:
-                tot = tot - _log(ctx, x) * x
-        elif n == np.inf:
-            big = w[0]  # largest kept eigenvalue (per charge block ascending, blocks concatenated: forks on the order)
-            for x in w[1:]:
-                if bool(x > big):
-                    big = x
-            tot = -_log(ctx, big)
-        else:
+        def run(f):
+            M.npc.eigvalsh = rec
+            restore = None
+            if ctx.symbolic:  # eigvalsh contract stub (fresh ascending real eigenvalues), installed after the sites / tensors are built
+                from symx import lapack, stubs
+                restore = stubs.facade_for(M.npc, widen=True, linalg_overrides={'eigvalsh': lapack.make_eigvalsh(np.linalg.eigvalsh)})
+            try:
+                return f()
+            finally:
+                M.npc.eigvalsh = orig
+                if restore is not None:
+                    restore()
+
+        def own_rho(i0, seg):
+            width = seg[-1] + 1
+            th = psi.get_theta(i0, n=width).to_ndarray()  # vL, p0..p_{width-1}, vR
+            drop = [0] + [1 + j for j in range(width) if j not in seg] + [width + 1]
+            return np.tensordot(th, th.conj(), axes=(drop, drop))
+
+        def formula(w):
+            if n == 1:
+                tot = 0
+                for x in w:
+                    tot = tot - _log(ctx, x) * x
+                return tot
+            if n == np.inf:
+                big = w[0]  # largest kept eigenvalue (per charge block ascending, blocks concatenated: forks on the order)
+                for x in w[1:]:
+                    if bool(x > big):
+                        big = x
+                return -_log(ctx, big)
             tot = 0
             for x in w:
                 tot = tot + x**n
-            tot = _log(ctx, tot) / (1. - n)
-        ctx.prove_eq(ent, np.array([tot]), 'entanglement_entropy_segment == entropy(eigenvalues of the reduced density matrix, n)')
+            return _log(ctx, tot) / (1. - n)
+
+        if mode == 'segment':
+            seg = list(p['segment'])
+            firsts = list(range(0, L - seg[-1])) if sm.bc != 'infinite' else list(range(L))
+            i0 = firsts[ctx.choice('first_site', len(firsts))]
+            ent = run(lambda: psi.entanglement_entropy_segment(segment=seg, first_site=[i0], n=n))
+            ctx.prove(len(calls) == 1 and len(ent) == 1, 'entanglement_entropy_segment: one reduced density matrix per first site')
+            rho, w = calls[0]
+            ctx.prove_eq(rho, own_rho(i0, seg), 'matrix diagonalised by entanglement_entropy_segment == own partial trace of theta theta^dagger')
+            ctx.prove_eq(ent, np.array([formula(w)]), 'entanglement_entropy_segment == entropy(eigenvalues of the reduced density matrix, n)')
+        else:
+            mr = p['max_range']
+            coord, mut = run(lambda: psi.mutinf_two_site(max_range=mr, n=n))
+            want = [(i, j) for i in range(L) for j in range(i + 1, (min(i + mr + 1, L) if sm.bc != 'infinite' else i + mr + 1))]
+            ctx.prove([tuple(int(x) for x in c) for c in coord] == want, 'mutinf_two_site: coordinates (i, j), i < j <= i + max_range')
+            ctx.prove(len(calls) == L + len(want) and len(mut) == len(want), 'mutinf_two_site: one density matrix per site and per pair')
+            if len(calls) == L + len(want) and len(mut) == len(want):
+                for i in range(L):
+                    ctx.prove_eq(calls[i][0], own_rho(i, [0]), 'mutinf_two_site: single-site density matrix == own partial trace')
+                S1 = [formula(calls[i][1]) for i in range(L)]
+                for k, (i, j) in enumerate(want):
+                    ctx.prove_eq(calls[L + k][0], own_rho(i, [0, j - i]),
+                                 'mutinf_two_site: two-site density matrix == own partial trace of the window state')
+                    ctx.prove_eq(np.array([mut[k]]), np.array([S1[i] + S1[j % L] - formula(calls[L + k][1])]),
+                                 'mutinf_two_site == S(i) + S(j) - S(ij) on the eigenvalues of the reduced density matrices')
     elif mode == 'spectrum':
         spec = psi.entanglement_spectrum()
         ctx.prove(len(spec) == len(bonds), 'entanglement_spectrum: one spectrum per non-trivial bond')
@@ -584,6 +607,11 @@ def CASES(tier, seed):
                 # counterexample search: the stub's eigenvalues are not tied to the tensors in the solver, so generic
                 # tensor entries are proposed and only the auxiliary symbols are left to the solver
                 cases[-1]['opts']['guided_with_side'] = True
+        if g['kind'] in ('spin', 'fermN') and g['bc'] != 'segment':
+            mr = 1 if g['bc'] == 'infinite' or not thorough else 2
+            # n = 1 only: with Renyi n = 2 the log-of-sum obligations cost ~2.5 s per path (measured), the n-plumbing is decided by entropy.segment
+            add(f"entropy.mutinf[max_range={mr},n=1][{gn}]", 'entropy_case', mode='mutinf', max_range=mr, n=1, **g)
+            cases[-1]['opts']['guided_with_side'] = True
         if g['bc'] == 'segment':
             add(f'entropy.bond_L[{gn}]', 'entropy_case', mode='bond_L', **g)
         if g['kind'] in ('spinSz', 'fermN', 'shfNSz'):
